@@ -20,6 +20,7 @@ package at
 import (
 	"context"
 	"fmt"
+	"strings"
 
 	"seata.apache.org/seata-go/pkg/datasource/sql/exec"
 	"seata.apache.org/seata-go/pkg/datasource/sql/types"
@@ -149,6 +150,11 @@ func (m *multiExecutor) groupParsersByTableName(parseContext *types.ParseContext
 		tableName, err = parser.GetTableName()
 		if err != nil {
 			return nil, err
+		}
+		// one group per table, however the statements spell it: t, T, `t`, db.t
+		tableName = strings.ToLower(strings.ReplaceAll(tableName, "`", ""))
+		if m.execContext != nil && m.execContext.DBName != "" {
+			tableName = strings.TrimPrefix(tableName, strings.ToLower(m.execContext.DBName)+".")
 		}
 
 		if stmtList, ok := tableParsers[tableName]; ok {
